@@ -1,0 +1,16 @@
+//go:build verif
+
+// Machine-checked contracts for package redislock (comment-only; see /verif/DESIGN.md).
+
+package redislock
+
+//@ # Necessary for "a holder is told when it loses its lock": the context handed to the holder must be one that
+//@ # can be cancelled at all. NEVER is the cancellation root of context.TODO()/Background(), which nothing can cancel.
+//@ func (*RedisLock) lock
+//@   requires r != nil
+//@   # the lock library may write its own client object and the options it is handed
+//@   modifies r, r.lc, opts
+//@   ensures[C19.redis-ctx-cancellable] err == nil ==> root(result0) != NEVER
+//@   # the lock that was obtained is the one remembered for Unlock
+//@   ensures[C19.redis-held] err == nil ==> r.l == res(Client.Obtain, 0)
+//@   ensures[C19.redis-fail] err != nil ==> isnil(result0) && r.l == old(r.l)
